@@ -222,6 +222,9 @@ func (db *DB) loadSchema(of Object) (s *Schema, err error) {
 		}
 
 		db.schemas[stype(of)] = s
+		// the routine flushing asynchronous writes must also be
+		// started when the schema gets loaded from disk
+		db.startAsyncWritesRoutine(s)
 		return
 	}
 
@@ -807,6 +810,10 @@ func (db *DB) Count(of Object) (n int, err error) {
 func (db *DB) Drop() (err error) {
 	db.Lock()
 	defer db.Unlock()
+
+	// asynchronous writes routines must not write
+	// anything back to a database which is dropped
+	db.cancel()
 
 	return os.RemoveAll(db.root)
 }
